@@ -156,7 +156,8 @@ def check(case, ctx):
         for s in case["specs"]:
             specs.build(s)
     except DeclarationError as e:
-        raise HarnessError(f"undeclarable spec in C17: {e}")
+        ctx.skip_undeclarable(None, e)
+        return
     state = _r.getstate()
     try:
         runs = [("in-process", _local(case, False)), ("in-process+interleaved", _local(case, True))]
